@@ -12,7 +12,7 @@ import (
 const NTemplates = 21
 
 // NFileTemplates file-passing skeletons follow the NTemplates dataflow ones.
-const NFileTemplates = 11
+const NFileTemplates = 12
 
 func ref(call string, path ...string) *Exp { return &Exp{Kind: ERefCall, Id: call, Path: path} }
 func self(id string, path ...string) *Exp  { return &Exp{Kind: ERefSelf, Id: id, Path: path} }
@@ -631,6 +631,24 @@ func Template(kind int, seed int64, cfg *Config) *Program {
 				{Callee: "MK", Map: true, Volatile: g.pct(50), Binds: []Binding{{Id: "x", Exp: ref("GENI", "arr"), Split: true}}},
 			}}
 		switch fk {
+		case 11:
+			// structs whose string / untyped map members come before their first
+			// file member (and the same members the other way round), returned at
+			// top level alone, in an array, in a typed map and inside another struct
+			lf := &Struct{Name: "LABEL_FIRST", Fields: []Param{{Name: "label", Type: TString}, {Name: "meta", Type: TMap}, {Name: "notes", Type: TFile}, {Name: "n", Type: TInt}}}
+			ff := &Struct{Name: "FILE_FIRST", Fields: []Param{{Name: "notes", Type: TFile}, {Name: "label", Type: TString}}}
+			tlf, tff := &Type{Kind: KStruct, Name: "LABEL_FIRST"}, &Type{Kind: KStruct, Name: "FILE_FIRST"}
+			wrapS := &Struct{Name: "WRAPS", Fields: []Param{{Name: "tag", Type: TString}, {Name: "inner", Type: tlf}}}
+			p.Structs = append(p.Structs, lf, ff, wrapS)
+			twr := &Type{Kind: KStruct, Name: "WRAPS"}
+			mks := src(&Stage{Name: "MKS", Ins: []Param{{Name: "x", Type: TInt}},
+				Outs: []Param{{Name: "lf", Type: tlf}, {Name: "ff", Type: tff}, {Name: "lfs", Type: ArrayOf(tlf)}, {Name: "lfm", Type: TMapOf(tlf)}, {Name: "wr", Type: twr}}})
+			p.Stages = []*Stage{geni, mks}
+			top.Calls = []*Call{top.Calls[0],
+				{Callee: "MKS", Volatile: g.pct(50), Binds: []Binding{{Id: "x", Exp: lit(s2)}}},
+			}
+			top.Outs = []Param{{Name: "lf", Type: tlf}, {Name: "ff", Type: tff}, {Name: "lfs", Type: ArrayOf(tlf)}, {Name: "lfm", Type: TMapOf(tlf)}, {Name: "wr", Type: twr}}
+			top.Ret = []Binding{{Id: "lf", Exp: ref("MKS", "lf")}, {Id: "ff", Exp: ref("MKS", "ff")}, {Id: "lfs", Exp: ref("MKS", "lfs")}, {Id: "lfm", Exp: ref("MKS", "lfm")}, {Id: "wr", Exp: ref("MKS", "wr")}}
 		case 10:
 			// a stage-level retain: MKR declares `retain (f, fs)`; its files are
 			// read by one consumer and, only after that one has finished, by a
